@@ -103,6 +103,9 @@ func (ex *Exec) findAsm(fn *ssa.Function) (*asmFunc, error) {
 	if pos.Filename == "" {
 		return nil, fmt.Errorf("no position")
 	}
+	if ex.RepoDir == "" || !strings.HasPrefix(pos.Filename, ex.RepoDir+"/") {
+		return nil, fmt.Errorf("assembly outside the repository is not interpreted")
+	}
 	dir := filepath.Dir(pos.Filename)
 	files, _ := filepath.Glob(filepath.Join(dir, "*.s"))
 	for _, f := range files {
